@@ -610,12 +610,31 @@ def _canary(case, ctx, I, mk, ops, paths):
     witness.  (a) the oracle sees one input doubled; (b) the oracle's elements rotated by one position.
     The witness is a point satisfying the constraints at which code and wrong oracle differ."""
     name = case.canary_scale
+    rets = [pth for pth in paths if pth[1][0] == "ret"]
+    verdict = "survived"
+    for pth in rets[:6]:
+        verdict = _canary_path(case, ctx, I, mk, ops, pth, name)
+        if verdict != "survived":
+            break
+    return verdict
+
+
+def _canary_path(case, ctx, I, mk, ops, pth, name):
     try:
-        pc, (kind, out) = paths[0]
+        pc, (kind, out) = pth
         ctx.pc = list(pc)
         fo = flatten(out)
         if all(all(x.is_const for _, x in parts(ctx, v)) for _, v in fo[:64]):
-            return "trivial"  # the code's output does not depend on the inputs (e.g. zero by parity)
+            return "trivial"
+        if pc:
+            ok_probe = False
+            for k in (0, 1):
+                try:
+                    ok_probe = ok_probe or all(f.holds(ctx, ctx.probe_env(k)) for f in pc)
+                except Exception:  # noqa: BLE001
+                    pass
+            if not ok_probe:
+                return "noprobe"  # no probe point lies on this path: the numeric twin cannot be evaluated here  # the code's output does not depend on the inputs (e.g. zero by parity)
         strategies = []
         if name in mk.names:
             class CMaker(SymMaker):
